@@ -23,7 +23,7 @@ VARIABLE l
 Trace == ndJsonDeserialize(TraceFile)
 
 ObsFields == {"bal", "supply", "val", "pidx", "prev", "prevTotal", "uq", "sinfo", "bits",
-              "awardQ", "burnQ", "proposer", "pkrel", "par"}
+              "awardQ", "burnQ", "proposer", "pkrel", "par", "denomAlt"}
 
 PairSet(q) == {<< q[i][1], q[i][2] >> : i \in 1..Len(q)}
 
@@ -34,13 +34,14 @@ RealOf(p) ==
     uq |-> {[t |-> p.uq[i].t, ids |-> p.uq[i].ids] : i \in 1..Len(p.uq)},
     sinfo |-> p.sinfo, bits |-> [v \in Users |-> SeqToSet(p.bits[v])],
     awardQ |-> p.awardQ, burnQ |-> p.burnQ, proposer |-> p.proposer, pkrel |-> SeqToSet(p.pkrel),
-    dAuth |-> p.dAuth, dRest |-> p.dRest, par |-> [maxVals |-> p.maxVals, minStake |-> p.minStake] ]
+    dAuth |-> p.dAuth, dRest |-> p.dRest, par |-> [maxVals |-> p.maxVals, minStake |-> p.minStake],
+    denomAlt |-> p.denomAlt ]
 
 Adopt(pred, r) ==
   [pred EXCEPT !.bal = r.bal, !.supply = r.supply, !.val = r.val, !.pidx = r.pidx, !.prev = r.prev,
                !.prevTotal = r.prevTotal, !.uq = r.uq, !.sinfo = r.sinfo, !.bits = r.bits,
                !.awardQ = r.awardQ, !.burnQ = r.burnQ, !.proposer = r.proposer, !.pkrel = r.pkrel,
-               !.dAuth = r.dAuth, !.dRest = r.dRest, !.par = r.par]
+               !.dAuth = r.dAuth, !.dRest = r.dRest, !.par = r.par, !.denomAlt = r.denomAlt]
 
 Obs(s) == [f \in ObsFields |-> s[f]]
 
@@ -50,8 +51,10 @@ Obs(s) == [f \in ObsFields |-> s[f]]
 \* C11: a rejected transaction leaves the state exactly as it was, except for the fee of one
 \* that passed the ante handler
 RejectedNoTrace(pre, post, a, res) ==
+  \* (with a zero fee a transaction that passed the ante handler is indistinguishable from one that
+  \* did not: paying the zero fee may still rewrite account records, so only then the auth digest is exempt)
   (a.a = "Tx" /\ res.class = "rej_pre") =>
-     Obs(post) = Obs(pre) /\ post.dAuth = pre.dAuth /\ post.dRest = pre.dRest
+     Obs(post) = Obs(pre) /\ (a.fee > 0 => post.dAuth = pre.dAuth) /\ post.dRest = pre.dRest
 RejectedOnlyFee(pre, post, a, res) ==
   (a.a = "Tx" /\ res.class = "rej_post") =>
      /\ \A f \in ObsFields \ {"bal"} : post[f] = pre[f]
